@@ -7,7 +7,9 @@ fn esc(s: &str) -> String {
 }
 
 const NAMES_PLAIN: [&str; 8] = ["addone", "noop", "helmert", "add2", "myop", "stack", "x", "inv"];
-const NAMES_COLON: [&str; 9] = ["m:a", "m:b", "geo:in", "addone:x", "n:c", "m:a_long", "stupid:way", "stupid:addone", "stupid:way_three"];
+const NAMES_COLON: [&str; 13] = ["m:a", "m:b", "geo:in", "addone:x", "n:c", "m:a_long", "stupid:way", "stupid:addone", "stupid:way_three",
+    // not names of anything: a known name with one more part
+    "stupid:way:nonexistent", "stupid:addone:v2", "m:a:x", "stupid:"];
 const CTORS: [&str; 4] = ["u:add2", "u:oneway3", "u:needv", "u:needv"];
 const BODIES: [&str; 8] = ["addone", "addone | addone", "addone inv", "m:a | addone", "helmert x=$v(3)", "m:b v=5", "add2 | m:a inv", "noop"];
 
@@ -131,6 +133,13 @@ pub fn generate(g: &mut Gen, thorough: bool) {
                     g.push(format!("S_C18F\t{kind}\t{}\t{}", crate::wire::escape(name), crate::wire::escape(body)), "oracle-file-then-registered", true);
                 }
             }
+        }
+    }
+    // unknown names give errors, in every context: names that only begin like a known one
+    for kind in ["default", "plain", "new", "plain-new"] {
+        for name in ["stupid:way:nonexistent", "stupid:addone:v2", "stupid::way", "stupid:wa", "stupid:way_", "geo:in:out", "geo:", ":in", "nosuch:macro", "addon", "addonee"] {
+            g.push(format!("S_C18U\t{kind}\t{}", crate::wire::escape(name)), "oracle-unknown-names", true);
+            g.push(format!("HIST\t{kind}\tO|{}\tO|addone %7c {} %7c addone", esc(name), esc(name)).replace("%7c", "\\u{7c}"), "hist-unknown-names", true);
         }
     }
     // shadowing holds for the steps of a pipeline as for a definition on its own
